@@ -3,6 +3,10 @@
 import json, subprocess, sys
 
 CHECKS = {
+ "C18": dict(cat="exploration", tech="fixed-point monitor over every input accepted during the hostile corpus and over crafted non-canonical forms: enc(dec(x)) must decode and re-encode byte-identically, same encoding and cross encoding",
+   text="~200k (quick) / ~4M (thorough) fixed-point checks on inputs the decoders ACCEPT (mostly non-canonical: the C02 corpus plus non-zero padding, over-long/odd big integers, unknown trailing, skipped and reordered fields, alternative JSON/XML lexical forms, OASIS vectors and variants): the re-encoding must be readable and a second re-encoding byte-identical, in the same encoding and in each other encoding where the harness-computed representability predicate (UTF-8 / XML Char / years 1..9999) holds.",
+   note="Only the fixed point is required, not value preservation of non-canonical forms. TZ=UTC.", ref="§2 C18"),
+
  "C02": dict(cat="exploration", tech="panic/crash, canary-mutation, determinism, extent non-interference and hang monitors around the three decoders, Stream.Recv and the HTTP handler under seeded hostile inputs in crash-isolated worker processes",
    text="~1M (quick) / ~20M (thorough) decodes: every item of seeded valid encodings gets the full length/type disagreement ladder, plus truncation at every offset, splices, flips, random bytes, 131072-level nesting, structural JSON/XML mutants, mutated OASIS vectors, and child-beyond-parent pairs decoded with two different fillers, against every top-level target type (generic value, messages, 54 payloads, attribute, objects). Inputs are handed over with cap==len inside canary-guarded buffers and decoded twice. Worker processes isolate fatal errors; a watchdog overrun is replayed alone before it counts. Held on what was executed; not a proof over all byte strings.",
    note="Answers of the decoders are not judged here. Input length bounded by 64 KiB except the nesting ladders (1 MiB).", ref="§2 C02"),
